@@ -940,6 +940,41 @@ struct LsmCommitEnv {
 }
 
 impl LsmCommitEnv {
+	/// Appends one record to the active segment (and syncs it if asked to). On failure
+	/// nothing of the record stays behind.
+	fn log_record(
+		&self,
+		wal_guard: &mut crate::wal::manager::Wal,
+		record: &[u8],
+		sync: bool,
+	) -> Result<()> {
+		let before = wal_guard.position()?;
+		let logged = wal_guard.append(record).and_then(|_| {
+			if sync {
+				wal_guard.sync()
+			} else {
+				Ok(())
+			}
+		});
+		if let Err(e) = logged {
+			// The commit reports this error: whatever reached the segment of its record (all
+			// of it, if only the sync failed) or still sits in the writer's buffer must go.
+			// Left behind, a complete record would be replayed by the next recovery although
+			// the commit failed, and a partial one would make everything appended after it
+			// unreadable. If even that cannot be done the log is in an unknown state and
+			// nothing more may be appended to it.
+			if let Err(e2) = wal_guard.rollback_to(before) {
+				log::error!("Commit log could not be cut back after a failed append: {e2}");
+				self.core.error_handler.set_error(
+					Error::Other(format!("commit log unusable after a failed append: {e2}")),
+					BackgroundErrorReason::MemtablaFlush,
+				);
+			}
+			return Err(e.into());
+		}
+		Ok(())
+	}
+
 	/// Creates a new commit environment for the LSM tree
 	pub(crate) fn new(core: Arc<CoreInner>, task_manager: Arc<TaskManager>) -> Result<Self> {
 		Ok(Self {
@@ -986,28 +1021,7 @@ impl CommitEnv for LsmCommitEnv {
 		// Write to WAL for durability
 		let enc_bytes = processed_batch.encode()?;
 		let mut wal_guard = self.core.wal.write();
-		let before = wal_guard.position()?;
-		let logged = wal_guard.append(&enc_bytes).and_then(|_| {
-			if sync {
-				wal_guard.sync()
-			} else {
-				Ok(())
-			}
-		});
-		if let Err(e) = logged {
-			// This commit reports the error: whatever reached the segment of its record (all
-			// of it, if only the sync failed) must go, or the next recovery would replay a
-			// commit that failed. If even that cannot be done the log is in an unknown state
-			// and nothing more may be appended to it.
-			if let Err(e2) = wal_guard.rollback_to(before) {
-				log::error!("Commit log could not be cut back after a failed append: {e2}");
-				self.core.error_handler.set_error(
-					Error::Other(format!("commit log unusable after a failed append: {e2}")),
-					BackgroundErrorReason::MemtablaFlush,
-				);
-			}
-			return Err(e.into());
-		}
+		self.log_record(&mut wal_guard, &enc_bytes, sync)?;
 		processed_batch.logged_in_wal = wal_guard.get_active_log_number();
 		processed_batch.logged_with_sync = sync;
 		drop(wal_guard);
@@ -1040,10 +1054,7 @@ impl CommitEnv for LsmCommitEnv {
 				if active_memtable.get_wal_number() > logged_in_wal {
 					let enc_bytes = batch.encode()?;
 					let mut wal_guard = self.core.wal.write();
-					wal_guard.append(&enc_bytes)?;
-					if batch.logged_with_sync {
-						wal_guard.sync()?;
-					}
+					self.log_record(&mut wal_guard, &enc_bytes, batch.logged_with_sync)?;
 					logged_in_wal = wal_guard.get_active_log_number();
 				}
 				(active_memtable.add(batch), Arc::clone(&active_memtable))
